@@ -1,3 +1,4 @@
+import errno
 import grp
 import os
 import pwd
@@ -90,7 +91,17 @@ class RealFs(RealVolumeOf, Fs):
         os.mkdir(path, mode)
 
     def move(self, path, dest):
-        return fs.move(path, dest)
+        # fs.move is shutil.move, which falls back to copy + delete after
+        # *any* failed rename. When the rename failed because the source
+        # directory cannot be modified the delete fails as well, half-way:
+        # the copy stays in the trash and a directory is left emptied. Only
+        # a rename across devices justifies the copy.
+        try:
+            os.rename(path, str(dest))
+        except OSError as e:
+            if e.errno != errno.EXDEV:
+                raise
+            fs.move(path, dest)
 
     def remove_file(self, path):
         fs.remove_file(path)
